@@ -76,7 +76,26 @@ def factories():
             return UN[i % len(UN)](r)
         return Postfix(l)
 
-    return {"raw": raw, "expr": expr, "dup-ids": dup, "same-id": same, "typed": typed}
+    def typed_odd(l, r, i):
+        # the same concrete classes, but NOT matched to the shape: a leaf may be a unary operator that
+        # has no operand yet, a one-child node may keep its child on the side its class does not
+        # use, a two-child node may be a unary class (trees under construction / after an edit)
+        if l is None and r is None:
+            return (E.NegateExpression() if i % 3 == 0 else E.FactorialExpression(None, True) if i % 3 == 1 else E.VariableExpression("q"))
+        if l is not None and r is not None:
+            n = BIN[i % len(BIN)](l, r) if i % 4 else E.SgnExpression()
+            if i % 4 == 0:
+                n.set_left(l)
+                n.set_right(r)
+            return n
+        n = UN[i % len(UN)]() if i % 2 else Postfix()
+        if l is not None:
+            n.set_left(l)      # a prefix class with its child on the LEFT when i is odd
+        else:
+            n.set_right(r)     # a postfix class with its child on the RIGHT when i is even
+        return n
+
+    return {"raw": raw, "expr": expr, "dup-ids": dup, "same-id": same, "typed": typed, "typed-odd": typed_odd}
 
 
 def drive(rec, s, fac):
